@@ -158,20 +158,44 @@ Fixpoint low_id (tab : list went) (i : N) (max : N) (fuel : nat) : option N :=
                 end
   end.
 
-(* mpt_command_reserve(&con->_wait, min(idlen, 4)) then cmd->cmd = ctl, cmd->arg = tag:
-   new table, index of the slot, its id *)
-Definition reserve (hasbuf : bool) (tab : list went) (idl : nat) (tag : nat) : option (list went * nat * N) :=
-  if (maxid idl =? 0)%N then None
+(* the switch of mpt_command_reserve(arr, max): the largest id for a header of max bytes (uintptr_t of 64 bit) *)
+Definition maxid_raw (mx : nat) : N :=
+  match mx with
+  | 0 => 0%N | 1 => 127%N | 2 => 32767%N | 3 => 8388607%N | 4 => 2147483647%N
+  | 5 => 549755813887%N | 6 => 140737488355327%N | 7 => 36028797018963967%N | _ => 9223372036854775807%N
+  end.
+
+(* mpt_command_reserve with the id limit mxv, then cmd->cmd = ctl, cmd->arg = tag: new table, index of the slot, its id *)
+Definition reserve_max (hasbuf : bool) (tab : list went) (mxv : N) (tag : nat) : option (list went * nat * N) :=
+  if (mxv =? 0)%N then None
   else if negb hasbuf then
     Some (mkwe 1 (Some tag) :: repeat (mkwe 0 None) 7, 0, 1%N)
   else
     let '(tab1, used, mid) := compact tab 0 (length tab) None 0 0%N in
     let base := firstn used tab1 in
-    let oid := if (maxid idl <=? mid)%N then low_id base 1 (maxid idl) (S used) else Some (mid + 1)%N in
+    let oid := if (mxv <=? mid)%N then low_id base 1 mxv (S used) else Some (mid + 1)%N in
     match oid with
     | None => None
     | Some id => Some (base ++ [mkwe id (Some tag)], used, id)
     end.
+
+(* mpt_connection_await: mpt_command_reserve(&con->_wait, min(idlen, sizeof(con->cid) = 4)) *)
+Definition reserve (hasbuf : bool) (tab : list went) (idl : nat) (tag : nat) : option (list went * nat * N) :=
+  reserve_max hasbuf tab (maxid idl) tag.
+
+(* direct calls of mpt_command_reserve(arr, mx) on a private array: [None] = reserve (tag = number of the call),
+   [Some k] = the caller releases slot k (cmd = 0) *)
+Fixpoint reserve_run (hasbuf : bool) (tab : list went) (mx : nat) (n : nat) (ops : list (option nat))
+  : list (option (nat * N) * list went) :=
+  match ops with
+  | [] => []
+  | None :: ops' =>
+    match reserve_max hasbuf tab (maxid_raw mx) (S n) with
+    | Some (tab', k, id) => (Some (k, id), tab') :: reserve_run true tab' mx (S n) ops'
+    | None => (None, tab) :: reserve_run hasbuf tab mx (S n) ops'
+    end
+  | Some k :: ops' => let tab' := trelease tab k in (None, tab') :: reserve_run hasbuf tab' mx n ops'
+  end.
 
 (* ---------------- the connection over a reply machine ---------------- *)
 Definition EventRetry : Z := 65536%Z.
@@ -467,11 +491,12 @@ Definition reopen_conn (c : conn) : conn := set_in c [] [] false.
 
 (* mpt_connection_close + the new backend (AS PATCHED by docs/C12_close_stream_dangling.diff: a closed stream is released).
    The reply context is released by the caller of this function (cstep).
-   MPT_OUTFLAG(Active) is cleared by mpt_outdata_close only: closing a STREAM in the middle of an outgoing message
-   (possible through mpt_connection_assign(con, NULL) alone) leaves the flag set - as is: every later assign / open is refused *)
+   MPT_OUTFLAG(Active) is cleared by mpt_outdata_close only (an open datagram socket): closing a STREAM in the middle of an
+   outgoing message (possible through mpt_connection_assign(con, NULL) alone) leaves the flag set - as is: every later
+   assign / open is refused, dispatch answers Retry *)
 Definition reset_conn (c : conn) (k : rkind) : conn :=
   mkcn false (match k with KDgram => true | KStream => false | KNone => cdg c end) (cidl c) [] (ctbuf c) 0%N
-       (cact c && negb (cdg c) && negb (cgone c)) []
+       (cact c && negb (cdg c && negb (cgone c))) []
        [] [] false (cntag c) (cclosed c) (creqs c) (crefs c) (match k with KNone => true | _ => false end).
 
 Definition reset_ret (k : rkind) (h : rhow) : Z :=
